@@ -338,19 +338,15 @@ void StatementBuilder::decl_parameter(const char* name, bool ref)
 
 void StatementBuilder::decl_func_begin(const char* name)
 {
-    // assert(currentFun == nullptr); // the parser should recover cleanly, but it does not
-    if (currentFun != nullptr) {
-        /* If currentFun != nullptr, we are in an error state. This error
-         * state arises when a parsing error happens in the middle of a
-         * function definition, such that we do not end up calling
-         * `decl_func_end` after a `decl_func_begin`, and we have not exited
-         * the scope of the function properly. Here, we just clean up the
-         * scope dirtily so that we can continue parsing.
-         * https://github.com/UPPAALModelChecker/uppaal/issues/402
-         */
-        currentFun = nullptr;
-        blocks.clear();
-    }
+    /* If currentFun != nullptr, we are in an error state. This error
+     * state arises when a parsing error happens in the middle of a
+     * function definition, such that we do not end up calling
+     * `decl_func_end` after a `decl_func_begin`, and we have not exited
+     * the scope of the function properly. Here, we just clean up the
+     * scope dirtily so that we can continue parsing.
+     * https://github.com/UPPAALModelChecker/uppaal/issues/402
+     */
+    abandon_function();
 
     type_t return_type = typeFragments[0];
     typeFragments.pop();
@@ -369,12 +365,23 @@ void StatementBuilder::decl_func_begin(const char* name)
     /* We maintain a stack of frames. As the function has a local
      * scope, we push a new frame and move the parameters to it.
      */
+    funFrameDepth = frames.size();
     push_frame(frame_t::create(frames.top()));
     params.move_to(frames.top());  // params is emptied here
 
     /* Create function block.
      */
     currentFun->body = std::make_unique<BlockStatement>(frames.top());
+}
+
+void StatementBuilder::abandon_function()
+{
+    if (currentFun == nullptr)
+        return;
+    currentFun = nullptr;
+    blocks.clear();
+    while (frames.size() > funFrameDepth)
+        popFrame();
 }
 
 BlockStatement& StatementBuilder::get_block() { return blocks.empty() ? *currentFun->body : *blocks.back(); }
@@ -395,9 +402,10 @@ void StatementBuilder::decl_func_end()
         handle_error(TypeException{"$Return_statement_expected"});
     }
 
-    /* Restore global frame.
+    /* Restore global frame (and drop the frames of unterminated blocks).
      */
-    popFrame();
+    while (frames.size() > funFrameDepth)
+        popFrame();
 
     /* Reset current function pointer to NULL.
      */
@@ -457,6 +465,7 @@ void StatementBuilder::decl_external_func(const char* name, const char* alias)
     if (!addFunction(type, alias, position_t())) {
         handle_error(DuplicateDefinitionError(alias));
     }
+    funFrameDepth = frames.size();
     push_frame(frame_t::create(frames.top()));
     params.move_to(frames.top());  // params is emptied here
     currentFun->body = std::make_unique<ExternalBlockStatement>(frames.top(), fp, !return_type.is_void());
